@@ -131,6 +131,30 @@ func c07Geometry(c *fw.Ctx, idx int) {
 		c.Fail("result-invalidated", "the slice returned by geojson.Marshal changed after later Marshal calls: now %s", clipStr(string(data), 300))
 		return
 	}
+	// a *Geometry returned by Encode belongs to the caller: it may be edited, or
+	// reused as the target of a json.Unmarshal of something else.  Whatever the
+	// caller does to it, encoding the same geometry again gives the same document
+	if r.Chance(1, 3) {
+		var eg *geojson.Geometry
+		var again []byte
+		var e2 error
+		if c.Guard("panic", func() {
+			eg, e2 = geojson.Encode(t)
+			if e2 != nil || eg == nil {
+				return
+			}
+			c07Scribble(r, eg)
+			again, e2 = geojson.Marshal(t)
+		}) {
+			return
+		}
+		c.Eval(1)
+		c.Count("encode_results_edited_by_the_caller")
+		if e2 != nil || !bytes.Equal(again, held) {
+			c.Fail("history-dependent", "after the caller edited a *Geometry it got from Encode, geojson.Marshal of the same geometry gives err=%v and %s; before it gave %s", e2, clipStr(string(again), 300), clipStr(string(held), 300))
+			return
+		}
+	}
 	jv, dec, readable := geojsonExpect(g)
 	c.Count("kind_" + g.Kind.String())
 	if !g.IsEmpty() {
@@ -191,6 +215,26 @@ func c07Geometry(c *fw.Ctx, idx int) {
 	}
 	if c.WantSample() && len(data) < 200 && !g.IsEmpty() {
 		c.Sample(map[string]any{"geometry": g.String(), "geojson": string(data)})
+	}
+}
+
+// c07Scribble overwrites everything reachable from an encoded Geometry the
+// caller owns: the bytes of the raw messages in place, then the messages, then
+// the whole value through json.Unmarshal of another document.
+func c07Scribble(r *fw.Rand, eg *geojson.Geometry) {
+	for _, rm := range []*json.RawMessage{eg.Coordinates, eg.BBox, eg.Geometries} {
+		if rm == nil {
+			continue
+		}
+		for i := range *rm {
+			(*rm)[i] = '9'
+		}
+		*rm = append((*rm)[:0], `[[7,8],[9,10]]`...)
+	}
+	if r.Bool() {
+		_ = json.Unmarshal([]byte(`{"type":"LineString","coordinates":[[1,2],[3,4]],"bbox":[1,2,3,4]}`), eg)
+	} else {
+		_ = json.Unmarshal([]byte(`{"type":"GeometryCollection","geometries":[{"type":"Point","coordinates":[5,6]}]}`), eg)
 	}
 }
 
